@@ -9,9 +9,10 @@
    (gate before the first select; blocked on predecessor / cancelled-but-waiting-for-predecessor;
    inside the user function; parked before the bookkeeping section with outcome o; done);
    retry timers (armed / fired / stopped / ran), whose callback is its own section; WaitExited
-   callers.  Contexts: root contexts are numbers (0 = nil) and are never cancelled from outside
-   (recorded assumption); the context of an instance is identified with the instance, its
-   cancellation is the flag [icanc].  Channels: the exited channel of instance i is identified
+   callers.  Contexts: root contexts are numbers (0 = nil); their owner may cancel them
+   ([ECancelRoot]: the set [dead]; every instance context derived from the root is cancelled with it, the container
+   keeps pointing at the cancelled context until an entry point forgets it, [norm]); the context of an instance is
+   identified with the instance, its cancellation is the flag [icanc].  Channels: the exited channel of instance i is identified
    with i, [iexit] says whether it is closed.  No proofs in this file. *)
 From Util Require Import Common.Base Common.ListLemmas.
 
@@ -55,67 +56,78 @@ Record st := {
   waiters : list waiter;
   (* state variant *)
   sv : bool; sval : N; sfn : nat; scmp : nat;
+  dead : list nat;                  (* root contexts cancelled by their owner *)
 }.
 
 Definition init (variant : bool) (cmp ncbs : nat) (script : option (list N)) : st :=
   {| kctx := 0; routine := None; lastexit := None;
      bo := match script with Some l => Some (l, 0) | None => None end; ncb := ncbs; b := bc0;
      recs := []; insts := []; timers := []; clock := 0%N; cblog := []; waiters := [];
-     sv := variant; sval := 0%N; sfn := 0; scmp := cmp |}.
+     sv := variant; sval := 0%N; sfn := 0; scmp := cmp; dead := [] |}.
 
 (* ---------- small setters (keep terms small in proofs) ---------- *)
 Definition set_recs (s : st) (l : list rec) : st :=
   {| kctx := kctx s; routine := routine s; lastexit := lastexit s; bo := bo s; ncb := ncb s; b := b s; recs := l;
      insts := insts s; timers := timers s; clock := clock s; cblog := cblog s; waiters := waiters s;
-     sv := sv s; sval := sval s; sfn := sfn s; scmp := scmp s |}.
+     sv := sv s; sval := sval s; sfn := sfn s; scmp := scmp s; dead := dead s |}.
 Definition set_insts (s : st) (l : list inst) : st :=
   {| kctx := kctx s; routine := routine s; lastexit := lastexit s; bo := bo s; ncb := ncb s; b := b s; recs := recs s;
      insts := l; timers := timers s; clock := clock s; cblog := cblog s; waiters := waiters s;
-     sv := sv s; sval := sval s; sfn := sfn s; scmp := scmp s |}.
+     sv := sv s; sval := sval s; sfn := sfn s; scmp := scmp s; dead := dead s |}.
 Definition set_timers (s : st) (l : list timer) : st :=
   {| kctx := kctx s; routine := routine s; lastexit := lastexit s; bo := bo s; ncb := ncb s; b := b s; recs := recs s;
      insts := insts s; timers := l; clock := clock s; cblog := cblog s; waiters := waiters s;
-     sv := sv s; sval := sval s; sfn := sfn s; scmp := scmp s |}.
+     sv := sv s; sval := sval s; sfn := sfn s; scmp := scmp s; dead := dead s |}.
 Definition set_waiters (s : st) (l : list waiter) : st :=
   {| kctx := kctx s; routine := routine s; lastexit := lastexit s; bo := bo s; ncb := ncb s; b := b s; recs := recs s;
      insts := insts s; timers := timers s; clock := clock s; cblog := cblog s; waiters := l;
-     sv := sv s; sval := sval s; sfn := sfn s; scmp := scmp s |}.
+     sv := sv s; sval := sval s; sfn := sfn s; scmp := scmp s; dead := dead s |}.
 Definition set_b (s : st) (x : bc) : st :=
   {| kctx := kctx s; routine := routine s; lastexit := lastexit s; bo := bo s; ncb := ncb s; b := x; recs := recs s;
      insts := insts s; timers := timers s; clock := clock s; cblog := cblog s; waiters := waiters s;
-     sv := sv s; sval := sval s; sfn := sfn s; scmp := scmp s |}.
+     sv := sv s; sval := sval s; sfn := sfn s; scmp := scmp s; dead := dead s |}.
 Definition set_kctx (s : st) (c : nat) : st :=
   {| kctx := c; routine := routine s; lastexit := lastexit s; bo := bo s; ncb := ncb s; b := b s; recs := recs s;
      insts := insts s; timers := timers s; clock := clock s; cblog := cblog s; waiters := waiters s;
-     sv := sv s; sval := sval s; sfn := sfn s; scmp := scmp s |}.
+     sv := sv s; sval := sval s; sfn := sfn s; scmp := scmp s; dead := dead s |}.
 Definition set_routine (s : st) (r : option nat) : st :=
   {| kctx := kctx s; routine := r; lastexit := lastexit s; bo := bo s; ncb := ncb s; b := b s; recs := recs s;
      insts := insts s; timers := timers s; clock := clock s; cblog := cblog s; waiters := waiters s;
-     sv := sv s; sval := sval s; sfn := sfn s; scmp := scmp s |}.
+     sv := sv s; sval := sval s; sfn := sfn s; scmp := scmp s; dead := dead s |}.
 Definition set_lastexit (s : st) (x : option nat) : st :=
   {| kctx := kctx s; routine := routine s; lastexit := x; bo := bo s; ncb := ncb s; b := b s; recs := recs s;
      insts := insts s; timers := timers s; clock := clock s; cblog := cblog s; waiters := waiters s;
-     sv := sv s; sval := sval s; sfn := sfn s; scmp := scmp s |}.
+     sv := sv s; sval := sval s; sfn := sfn s; scmp := scmp s; dead := dead s |}.
 Definition set_bo (s : st) (x : option (list N * nat)) : st :=
   {| kctx := kctx s; routine := routine s; lastexit := lastexit s; bo := x; ncb := ncb s; b := b s; recs := recs s;
      insts := insts s; timers := timers s; clock := clock s; cblog := cblog s; waiters := waiters s;
-     sv := sv s; sval := sval s; sfn := sfn s; scmp := scmp s |}.
+     sv := sv s; sval := sval s; sfn := sfn s; scmp := scmp s; dead := dead s |}.
 Definition set_clock (s : st) (x : N) : st :=
   {| kctx := kctx s; routine := routine s; lastexit := lastexit s; bo := bo s; ncb := ncb s; b := b s; recs := recs s;
      insts := insts s; timers := timers s; clock := x; cblog := cblog s; waiters := waiters s;
-     sv := sv s; sval := sval s; sfn := sfn s; scmp := scmp s |}.
+     sv := sv s; sval := sval s; sfn := sfn s; scmp := scmp s; dead := dead s |}.
 Definition set_cblog (s : st) (x : list outcome) : st :=
   {| kctx := kctx s; routine := routine s; lastexit := lastexit s; bo := bo s; ncb := ncb s; b := b s; recs := recs s;
      insts := insts s; timers := timers s; clock := clock s; cblog := x; waiters := waiters s;
-     sv := sv s; sval := sval s; sfn := sfn s; scmp := scmp s |}.
+     sv := sv s; sval := sval s; sfn := sfn s; scmp := scmp s; dead := dead s |}.
 Definition set_sval (s : st) (x : N) : st :=
   {| kctx := kctx s; routine := routine s; lastexit := lastexit s; bo := bo s; ncb := ncb s; b := b s; recs := recs s;
      insts := insts s; timers := timers s; clock := clock s; cblog := cblog s; waiters := waiters s;
-     sv := sv s; sval := x; sfn := sfn s; scmp := scmp s |}.
+     sv := sv s; sval := x; sfn := sfn s; scmp := scmp s; dead := dead s |}.
 Definition set_sfn (s : st) (x : nat) : st :=
   {| kctx := kctx s; routine := routine s; lastexit := lastexit s; bo := bo s; ncb := ncb s; b := b s; recs := recs s;
      insts := insts s; timers := timers s; clock := clock s; cblog := cblog s; waiters := waiters s;
-     sv := sv s; sval := sval s; sfn := x; scmp := scmp s |}.
+     sv := sv s; sval := sval s; sfn := x; scmp := scmp s; dead := dead s |}.
+
+Definition set_dead (s : st) (x : list nat) : st :=
+  {| kctx := kctx s; routine := routine s; lastexit := lastexit s; bo := bo s; ncb := ncb s; b := b s; recs := recs s;
+     insts := insts s; timers := timers s; clock := clock s; cblog := cblog s; waiters := waiters s;
+     sv := sv s; sval := sval s; sfn := sfn s; scmp := scmp s; dead := x |}.
+
+(* k.ctx.Err() != nil: the root context was cancelled by its owner *)
+Definition root_dead (s : st) (c : nat) : bool := existsb (Nat.eqb c) (dead s).
+(* if k.ctx != nil && k.ctx.Err() != nil { k.ctx = nil } *)
+Definition norm (s : st) : st := if root_dead s (kctx s) then set_kctx s 0 else s.
 
 Definition rec0 : rec := {| rfn := 0; rarg := 0%N; rctx := None; rcancel := None; rexit := None;
                             rerr := ONil; rsucc := false; rexited := false; rretry := None |}.
@@ -178,7 +190,7 @@ Definition start_rec (fx : fixes) (s : st) (r : nat) (ctx : nat) (waitCh : optio
     let w := match waitCh with Some _ => waitCh | None => if fx_last fx then lastexit s1 else None end in
     let n := length (insts s1) in
     let x1 := getr s1 r in
-    let s2 := set_insts s1 (insts s1 ++ [{| irec := r; iwait := w; ipcv := IGate0; icanc := false; iexit := false;
+    let s2 := set_insts s1 (insts s1 ++ [{| irec := r; iwait := w; ipcv := IGate0; icanc := root_dead s1 ctx; iexit := false;
                                             iarg := rarg x1; iroot := ctx |}]) in
     let s3 := set_lastexit s2 (Some n) in
     setr s3 r {| rfn := rfn x1; rarg := rarg x1; rctx := Some n; rcancel := Some n; rexit := Some n;
@@ -208,7 +220,7 @@ Definition set_context (fx : fixes) (s : st) (c : nat) (restart : bool) : st * b
     end.
 
 (* setRoutineLocked(routine) -> (waitReturn, reset); f = 0 is the nil routine, arg the captured state *)
-Definition set_routine_locked (fx : fixes) (s : st) (f : nat) (arg : N) : st * (option nat * bool) :=
+Definition set_routine_locked_n (fx : fixes) (s : st) (f : nat) (arg : N) : st * (option nat * bool) :=
   let '(s1, prevExit, wasReset) :=
     match routine s with
     | Some p =>
@@ -228,8 +240,12 @@ Definition set_routine_locked (fx : fixes) (s : st) (f : nat) (arg : N) : st * (
     (do_bcast s4, (prevExit, wasReset))
   else ((if wasReset then do_bcast s1 else s1), (prevExit, wasReset)).
 
+(* the entry point first forgets a root context that was cancelled by its owner *)
+Definition set_routine_locked (fx : fixes) (s : st) (f : nat) (arg : N) : st * (option nat * bool) :=
+  set_routine_locked_n fx (norm s) f arg.
+
 (* restartRoutineLocked(false) -> restarted *)
-Definition restart_routine (fx : fixes) (s : st) : st * bool :=
+Definition restart_routine_n (fx : fixes) (s : st) : st * bool :=
   match routine s with
   | None => (s, false)
   | Some r =>
@@ -245,8 +261,10 @@ Definition restart_routine (fx : fixes) (s : st) : st * bool :=
       (do_bcast (start_rec fx s3 r (kctx s3) (rexit y) true), true)
   end.
 
+Definition restart_routine (fx : fixes) (s : st) : st * bool := restart_routine_n fx (norm s).
+
 Definition get_running (s : st) : bool :=
-  negb (Nat.eqb (kctx s) 0) && match routine s with Some r => negb (rexited (getr s r)) | None => false end.
+  negb (Nat.eqb (kctx s) 0) && negb (root_dead s (kctx s)) && match routine s with Some r => negb (rexited (getr s r)) | None => false end.
 
 (* updateStateRoutineLocked -> (waitReturn, reset, running) *)
 Definition update_sr (fx : fixes) (s : st) : st * (option nat * bool * bool) :=
@@ -418,27 +436,26 @@ Definition timer_cb (fx : fixes) (s : st) (t : nat) : st :=
 (* ---------- WaitExited ---------- *)
 Definition setw (s : st) (a : nat) (w : waiter) : st := set_waiters s (set_nth (waiters s) a w).
 
+(* the section of one WaitExited iteration, the waiter w being at its gate; the context is normalised first *)
+Definition wait_sect_at (s : st) (a : nat) (w : waiter) : st :=
+  let res :=
+    match routine s with
+    | Some r => if negb (Nat.eqb (kctx s) 0)
+                then (let y := getr s r in if rexited y || rsucc y then Some (rerr y) else None)
+                else (if wrinr w then Some ONil else None)
+    | None => if wrinr w then Some ONil else None
+    end in
+  let '(b', ch) := getch (b s) in
+  let s1 := set_b s b' in
+  match res with
+  | Some o => setw s1 a {| wpcv := WRet o; wrinr := wrinr w; wcanc := wcanc w |}
+  | None => if wcanc w then setw s1 a {| wpcv := WRet OCanc; wrinr := wrinr w; wcanc := true |}
+            else setw s1 a {| wpcv := WBlocked ch; wrinr := wrinr w; wcanc := wcanc w |}
+  end.
+
 Definition wait_section (s : st) (a : nat) : st :=
   match nth_error (waiters s) a with
-  | Some w =>
-    match wpcv w with
-    | WGate =>
-      let res :=
-        match routine s with
-        | Some r => if negb (Nat.eqb (kctx s) 0)
-                    then (let y := getr s r in if rexited y || rsucc y then Some (rerr y) else None)
-                    else (if wrinr w then Some ONil else None)
-        | None => if wrinr w then Some ONil else None
-        end in
-      let '(b', ch) := getch (b s) in
-      let s1 := set_b s b' in
-      match res with
-      | Some o => setw s1 a {| wpcv := WRet o; wrinr := wrinr w; wcanc := wcanc w |}
-      | None => if wcanc w then setw s1 a {| wpcv := WRet OCanc; wrinr := wrinr w; wcanc := true |}
-                else setw s1 a {| wpcv := WBlocked ch; wrinr := wrinr w; wcanc := wcanc w |}
-      end
-    | _ => s
-    end
+  | Some w => match wpcv w with WGate => wait_sect_at (norm s) a w | _ => s end
   | None => s
   end.
 
@@ -473,6 +490,12 @@ Definition wait_errch (s : st) (a : nat) (code : nat) : st :=
   | None => s
   end.
 
+(* ---------- the environment: the owner of root context c cancels it ---------- *)
+(* every instance context derived from it is cancelled with it (context.WithCancel children, synchronously); the
+   container keeps pointing at the cancelled context until an entry point normalises it *)
+Definition cancel_root (s : st) (c : nat) : st :=
+  set_insts (set_dead s (c :: dead s)) (map (fun x => if Nat.eqb (iroot x) c then with_canc x else x) (insts s)).
+
 (* ---------- events ---------- *)
 Inductive ev :=
 | ESetCtx (c : nat) (restart : bool)
@@ -491,7 +514,8 @@ Inductive ev :=
 | EWSect (a : nat)
 | EWWake (a : nat)
 | EWCancel (a : nat)
-| EWErr (a : nat) (code : nat).
+| EWErr (a : nat) (code : nat)
+| ECancelRoot (c : nat).
 
 Definition step (fx : fixes) (s : st) (e : ev) : st :=
   match e with
@@ -512,6 +536,7 @@ Definition step (fx : fixes) (s : st) (e : ev) : st :=
   | EWWake a => wait_wake s a
   | EWCancel a => wait_cancel s a
   | EWErr a c => wait_errch s a c
+  | ECancelRoot c => cancel_root s c
   end.
 
 Definition run (fx : fixes) (s0 : st) (es : list ev) : st := fold_left (step fx) es s0.
